@@ -122,6 +122,7 @@ type c02Fault struct {
 	Reset     bool   `json:"reset"`
 	Side      int    `json:"side"`
 	J         int    `json:"j"`
+	Window    int    `json:"window,omitempty"` // flow-controlled link: writes block while this many bytes are unread
 }
 
 type c02Case struct {
@@ -238,6 +239,7 @@ func (c *c02Ctx) plan(f c02Fault) link.Plan {
 	case "cut":
 		p.Cut[f.Dir] = f.K
 		p.InFlightLost, p.FailAfter, p.Reset = f.Lost, f.FailAfter, f.Reset
+		p.Window, p.PeerClosedWritesFail = f.Window, f.Window > 0
 	case "pair":
 		p.Cut[0], p.Cut[1] = f.K, f.K2
 		p.FailAfter, p.Reset = f.FailAfter, f.Reset
@@ -390,18 +392,21 @@ func (c *c02Ctx) faults(s c02State, thorough, pairs bool) []c02Fault {
 	clean := c.step(s, c02Fault{Kind: "clean"})
 	var fs []c02Fault
 	type variant struct {
-		lost  bool
-		fail  int
-		reset bool
+		lost   bool
+		fail   int
+		reset  bool
+		window int
 	}
-	vs := []variant{{false, -1, false}, {true, 0, true}}
+	// the last variant of each tier runs on a flow-controlled link (a sender can still be writing
+	// when the other side has noticed the failure and hung up)
+	vs := []variant{{false, -1, false, 0}, {true, 0, true, 0}, {false, 0, false, 1}}
 	if thorough {
-		vs = []variant{{false, -1, false}, {true, 0, true}, {true, -1, false}, {false, 0, false}, {false, 1, true}, {true, 2, false}}
+		vs = []variant{{false, -1, false, 0}, {true, 0, true, 0}, {true, -1, false, 0}, {false, 0, false, 0}, {false, 1, true, 0}, {true, 2, false, 0}, {false, 0, false, 1}, {true, 0, true, 200}}
 	}
 	for d := 0; d < 2; d++ {
 		for k := 0; k <= clean.Written[d]; k++ {
 			for _, v := range vs {
-				fs = append(fs, c02Fault{Kind: "cut", Dir: d, K: k, Lost: v.lost, FailAfter: v.fail, Reset: v.reset})
+				fs = append(fs, c02Fault{Kind: "cut", Dir: d, K: k, Lost: v.lost, FailAfter: v.fail, Reset: v.reset, Window: v.window})
 			}
 		}
 	}
@@ -417,6 +422,10 @@ func (c *c02Ctx) faults(s c02State, thorough, pairs bool) []c02Fault {
 	for side := 0; side < 2; side++ {
 		for j := 1; j <= len(c.msgs[1-side]); j++ {
 			fs = append(fs, c02Fault{Kind: "storage", Side: side, J: j})
+			if c.sc.Dir {
+				// the directory mailbox meets a genuine file-system failure (J < 0: see dirBox.FailAt)
+				fs = append(fs, c02Fault{Kind: "storage", Side: side, J: -j})
+			}
 		}
 	}
 	return fs
